@@ -14,7 +14,8 @@ EVIDENCE = dict(
          "Trace_RVProject with Coherent evaluated on every real state (also 265 modules). Actions include attach at the end "
          "(loading=True), raw 16-bit note numbers, nested += lists, new_module with the parent keyword; MC_RVSystem is simulated and "
          "explored exhaustively with transitions replayed by state injection. non-trivial = state changes or call refused."
-         " Histories include load_without_output (the project written with position 0 emptied and read back: RVProject!LoadNoOutput, coherence clauses about position 0 waived by CoherentH, all others kept).",
+         " Histories include load_without_output (the project written with position 0 emptied and read back: RVProject!LoadNoOutput, coherence clauses about position 0 waived by CoherentH, all others kept)."
+         " Histories also clear a position by hand (project.modules[i] = None), re-use it and attach the removed module again (RVProject!RemoveMod).",
     explanation="states/transitions from the exhaustive bounded model; traces are real executions")
 
 
